@@ -3,6 +3,7 @@ package c10
 import (
 	"fmt"
 	"os"
+	"sort"
 	"strings"
 	"testing"
 
@@ -16,6 +17,11 @@ import (
 // a quarter of the cases 131072), so that posting lists, the forward index and the group-by
 // scanners span two or three roaring containers. Most series are fillers that carry only `uid`;
 // the series with generated tags sit at the beginning, around every container boundary and at the end.
+// The series are written in 2-4 batches cut near the end, around a container boundary or near the
+// beginning; every batch is flushed (one file per index family), the files are compacted after or
+// before the last batch (then possibly a second time), restart at the end; every condition (selection
+// by group by uid, group by host/zone values) is checked in the states in between. No seam: this is
+// the dense form of the series id plans of idplan_test.go.
 func TestTagFilterManySeries(t *testing.T) {
 	if os.Getenv("VERIF_TIER") != "thorough" && os.Getenv("C10_BIG") == "" {
 		t.Skip("thorough tier only (set C10_BIG=1 to run by hand)")
@@ -51,8 +57,7 @@ func TestTagFilterManySeries(t *testing.T) {
 				tagged[b*65536-1+i] = true
 			}
 		}
-		late := rapid.IntRange(1, 30).Draw(t, "lateSeries") // written after the first flush
-		var first, second []*seriesT
+		var all []*seriesT
 		for i := 0; i < total; i++ {
 			s := &seriesT{Metric: mp.Name, Shard: 0, Tags: map[string]string{}}
 			if tagged[i] {
@@ -67,12 +72,33 @@ func TestTagFilterManySeries(t *testing.T) {
 				s.UID = fmt.Sprintf("f%06d", i)
 			}
 			s.Tags["uid"] = s.UID
-			if i >= total-late {
-				second = append(second, s)
-			} else {
-				first = append(first, s)
+			all = append(all, s)
+		}
+		// write batches (each one is flushed, i.e. becomes one file of every index family): the cuts lie
+		// near the end (a small late file), around a container boundary (a file ends / starts with a
+		// container, or a few ids into it) or near the beginning (a first file with one container only)
+		nBatches := rapid.SampledFrom([]int{2, 2, 2, 3, 3, 4}).Draw(t, "nBatches")
+		cutSet := map[int]bool{}
+		for len(cutSet) < nBatches-1 {
+			var c int
+			switch rapid.IntRange(0, 5).Draw(t, "cutKind") {
+			case 0, 1:
+				c = total - rapid.IntRange(1, 30).Draw(t, "lateSeries")
+			case 2, 3, 4:
+				// position p holds series id p+1 (id 0 is the warm-up series, when there is one) or p
+				c = rapid.IntRange(1, containers).Draw(t, "cutBoundary")*65536 + rapid.IntRange(-span-2, span+2).Draw(t, "cutOff")
+			default:
+				c = rapid.IntRange(1, 2*span).Draw(t, "earlySeries")
+			}
+			if c > 0 && c < total {
+				cutSet[c] = true
 			}
 		}
+		cuts := []int{0, total}
+		for c := range cutSet {
+			cuts = append(cuts, c)
+		}
+		sort.Ints(cuts)
 		// conditions: generated ones over host/zone, plus uid conditions that cut through the boundaries
 		plans := []*metricPlan{mp}
 		var conds []*condCase
@@ -108,28 +134,44 @@ func TestTagFilterManySeries(t *testing.T) {
 		w := newWorld(t, shards, 1)
 		defer w.close()
 		stats := &caseStats{classes: map[string]bool{}}
-		round := 0
+		round, compactionsDone := 0, 0
 		check := func() {
 			w.checkpoint(conds, round, stats)
 			round++
 		}
-		w.write(first)
-		if rapid.Bool().Draw(t, "checkMemory") {
-			check()
-		}
-		if rapid.Bool().Draw(t, "prepareFirst") {
-			w.prepare(true, shards)
-			check()
-		}
-		w.flush(flushAll, shards)
-		check()
-		w.write(second)
-		check()
-		w.flush(flushAll, shards)
-		check()
-		if rapid.Bool().Draw(t, "compact") {
+		// history: every batch is written and flushed; the level-0 files are compacted after the last batch or,
+		// half of the time when there are >= 3 batches, before it (the last batch then makes a new file next
+		// to the compacted one, which may be compacted again); restart at the end
+		lastAfterCompaction := nBatches >= 3 && rapid.Bool().Draw(t, "lastBatchAfterCompaction")
+		compactAll := func() {
+			before := w.compactions
 			w.compact(func(int) bool { return true }, rapid.Bool().Draw(t, "delObsolete"))
+			if w.compactions > before {
+				stats.classes[fmt.Sprintf("many_series_index_compaction_round_%d", compactionsDone+1)] = true
+				compactionsDone++
+			}
 			check()
+		}
+		for b := 0; b < nBatches; b++ {
+			if lastAfterCompaction && b == nBatches-1 {
+				compactAll()
+				stats.classes["many_series_batch_after_compaction"] = true
+			}
+			w.write(all[cuts[b]:cuts[b+1]])
+			switch rapid.IntRange(0, 3).Draw(t, "checkBeforeFlush") {
+			case 0:
+				check() // memory (+ files of the earlier batches)
+			case 1:
+				w.prepare(true, shards)
+				check()
+			}
+			w.flush(flushAll, shards)
+			if b == nBatches-1 || rapid.Bool().Draw(t, "checkAfterFlush") {
+				check()
+			}
+		}
+		if rapid.IntRange(0, 3).Draw(t, "compact") > 0 {
+			compactAll()
 		}
 		if rapid.Bool().Draw(t, "reopen") {
 			w.reopen()
@@ -140,9 +182,9 @@ func TestTagFilterManySeries(t *testing.T) {
 		for _, cc := range conds {
 			texts = append(texts, cc.Text)
 		}
-		canon := fmt.Sprintf("%d|%d|%d|%v|%s|%s", total, span, late, mp.Pools, strings.Join(texts, "|"), w.history())
+		canon := fmt.Sprintf("%d|%d|%v|%v|%s|%s", total, span, cuts, mp.Pools, strings.Join(texts, "|"), w.history())
 		ev.Case(group, canon, stats.nonTrivial, sortedKeys(stats.classes), map[string]any{
-			"series": total, "tagged_span": span, "conditions": texts, "history": w.log, "queries": stats.queries,
+			"series": total, "tagged_span": span, "batch_cuts": cuts, "conditions": texts, "history": w.log, "queries": stats.queries,
 		})
 	})
 }
